@@ -1,11 +1,15 @@
-#!/bin/sh
-# usage: tools/seedtest.sh <patch> <Cxx> [<Cxx>...]   — applies a seeded change to /repo, runs the checks, reverts.
+#!/bin/bash
+# usage: tools/seedtest.sh <patch> <Cxx> [<Cxx>...]   — applies a seeded change to /repo, runs the checks, always reverts.
 patch="$1"; shift
+out=$(mktemp)
+trap 'git -C /repo checkout -- . ; rm -f "$out"' EXIT
+trap '' PIPE
 git -C /repo apply --check "$patch" || { echo "patch does not apply"; exit 3; }
 git -C /repo apply "$patch"
 for p in "$@"; do
-  echo "== $p on $(basename $(dirname $patch))/$(basename $patch)"
-  /verif/check "$p" 2>&1 | grep -E "^(VIOLATION|OK|KNOWN|  )" | head -6
+  echo "== $p on $(basename $(dirname $patch))/$(basename $patch)" >> "$out"
+  /verif/check "$p" 2>&1 | grep -E "^(VIOLATION|OK|KNOWN|  )" | head -6 >> "$out"
 done
 git -C /repo checkout -- .
+cat "$out" 2>/dev/null || true
 git -C /repo status --short | head -3
